@@ -32,6 +32,10 @@ def analytic(rng, env):
         return c ** 2 * rng.choice(x) + rng.choice([1, 2])
     if k < 0.8:
         return sympy.exp(c) + rng.choice(x)
+    if k < 0.9 and len(x) > 1:
+        # multi-affine: every pure second derivative vanishes, the mixed ones do not (seeded change C11-7)
+        ys = rng.sample(list(x), len(x))
+        return rng.choice([ys[0] * ys[1], sympy.Mul(*ys), ys[0] + ys[1] * ys[-1] + 1])
     return sympy.S.Zero
 
 
@@ -59,6 +63,8 @@ def gen_cases(ctx, n):
         env = envs[(dim, logical)]
         cls = rng.choice([Norm, SemiNorm])
         kind = rng.choice(['l2', 'h1', 'h2'])
+        if rng.random() < 0.25:
+            kind = Kind(kind, kind.upper())       # the kind is case-insensitive ('H1'; seeded change C11-8)
         if rng.random() < 0.55:
             e, vec = scalar_err(rng, env), False
         else:
@@ -71,10 +77,18 @@ def gen_cases(ctx, n):
         yield env, cls, kind, e, vec
 
 
+class Kind(str):
+    """the kind as the model / the oracle read it (lower case) with the spelling handed to the constructor"""
+    def __new__(cls, kind, spelled):
+        r = str.__new__(cls, kind)
+        r.spelled = spelled
+        return r
+
+
 def kernel(env, cls, kind, e):
     from sympde.expr import TerminalExpr
     try:
-        n = cls(e, env.domain, kind=kind)
+        n = cls(e, env.domain, kind=getattr(kind, 'spelled', kind))
         t = TerminalExpr(n, env.domain)
         if len(t) != 1:
             return ('err', 'kernels:%d' % len(t))
@@ -156,6 +170,15 @@ def fixed_corpus():
         out.append((env, SemiNorm, 'h2', u - sympy.sin(env.coords[0]), False, 'corpus:h2 seminorm scalar %dd' % dim))
         F = env.vf[0]
         out.append((env, Norm, 'h2', sympy.Matrix([F[i] for i in range(dim)]), True, 'corpus:h2 norm vector %dd' % dim))
+    for dim in (2, 3):
+        env = Env(dim, False, tag='km')
+        u = env.sf[0]
+        xy = sympy.Mul(*env.coords)
+        out.append((env, SemiNorm, 'h2', u - xy, False, 'corpus:h2 seminorm u - x*y.. %dd' % dim))
+        out.append((env, Norm, 'h2', u - env.coords[0] - env.coords[0] * env.coords[1], False, 'corpus:h2 norm u - x - x*y %dd' % dim))
+        out.append((env, Norm, Kind('h1', 'H1'), u - sympy.sin(env.coords[0]) * env.coords[1], False, 'corpus:H1 norm (upper case) %dd' % dim))
+        out.append((env, SemiNorm, Kind('h2', 'H2'), u - sympy.sin(env.coords[0]), False, 'corpus:H2 seminorm (upper case) %dd' % dim))
+        out.append((env, Norm, Kind('l2', 'L2'), u - env.coords[0], False, 'corpus:L2 norm (upper case) %dd' % dim))
     env = Env(1, True, tag='kn')
     out.append((env, Norm, 'h1', env.sf[0] - sympy.sin(env.coords[0]), False, 'corpus:h1 norm scalar 1d'))
     out.append((env, Norm, 'h1', sympy.Matrix([env.vf[0][0] - env.coords[0]]), True, 'corpus:h1 norm vector 1d'))
@@ -175,7 +198,7 @@ def oracle(ctx, factor, seeds):
             o.count('impl-timeout')
             continue
         o.evaluations += 1
-        name = '%s(%s, kind=%s) dim %d' % (cls.__name__, e if not vec else list(e), kind, env.dim)
+        name = '%s(%s, kind=%s) dim %d' % (cls.__name__, e if not vec else list(e), getattr(kind, 'spelled', kind), env.dim)
         if impl[0] == 'err':
             o.fail(key or ('fail:' + name), '%s raised %s' % (name, impl[1]))
             continue
